@@ -32,7 +32,7 @@ SCRIPT_OPS = {
     "havespace": ("s", 10), "listscripts": (), "getscript": ("s",), "putscript": ("s", "keep;"), "checkscript": ("keep;",),
     "deletescript": ("s",), "renamescript": ("s", "t"), "setactive": ("s",),
 }
-KINDS = [None, "NO", "BYE", "SILENCE", "MALFORMED"]
+KINDS = [None, "NO", "BYE", "SILENCE", "MALFORMED", "BYE:REFERRAL"]
 SASL_LISTS = [["PLAIN"], ["LOGIN", "PLAIN"], ["OAUTHBEARER"], ["DIGEST-MD5", "LOGIN"], ["SCRAM-SHA-1"], [], None]
 
 
@@ -157,8 +157,17 @@ def run(steps, introspect=False):
                 spec = stp["connect"]
                 pending.append(spec)
                 logged_out = False
+                nconn0 = len(conns)
                 res = call("connect", "user", "pw", "", starttls=spec["starttls"], authmech=spec["authmech"])
-                c = cur[0]
+                if spec["starttls"]:
+                    # every connection this connect() call opened - also one it opened on its own
+                    # initiative (a referral, a retry) - is bound by the caller's request for TLS
+                    for oc in conns[nconn0:]:
+                        aw = [(ch, d) for ch, d in oc.sock.writes if b"AUTHENTICATE" in d.upper()]
+                        if any(ch == "plain" for ch, _ in aw) and oc.spec is not spec:
+                            fails.append(("AUTHENTICATE-on-plain-channel-despite-starttls|on-a-connection-opened-by-connect-itself",
+                                          {"steps": steps[: i + 1], "result": res, "writes": [(ch, d) for ch, d in oc.sock.writes]}))
+                c = conns[nconn0] if len(conns) > nconn0 else cur[0]
                 if c is None or c.spec is not spec:
                     continue
                 det = {"steps": steps[: i + 1], "result": res, "writes": [(ch, d) for ch, d in c.sock.writes],
@@ -173,6 +182,8 @@ def run(steps, introspect=False):
                         fails.append(("AUTHENTICATE-before-TLS-handshake-completed", det))
                     tls_possible = (spec["cfg"]["starttls"] and spec["handshake_ok"]
                                     and not any(v in ("GREETING", "STARTTLS") for v, _, _ in spec["cfg"]["faults"]))
+                    if len(conns) > nconn0 + 1:
+                        tls_possible = True  # judged per connection above
                     if not tls_possible:
                         info["classes"].add("tls-fails")
                         if res == ("ret", True) or client.authenticated and c.srv.authenticated:
@@ -236,27 +247,49 @@ def run(steps, introspect=False):
                     continue
                 try:
                     sig = inspect.signature(meth)
-                    args = []
-                    for p in sig.parameters.values():
-                        if p.kind in (p.VAR_POSITIONAL, p.VAR_KEYWORD):
-                            continue
-                        if p.default is not p.empty:
-                            continue
-                        ann = p.annotation
-                        args.append(7 if ann is int or "size" in p.name else "x")
+                    params = list(sig.parameters.values())
                 except (TypeError, ValueError):
-                    args = []
-                n0 = len(c.sock.writes)
-                try:
-                    meth(*args)
-                except Exception:  # noqa: BLE001
-                    pass
-                written = b"".join(d for _, d in c.sock.writes[n0:])
-                verbs = script_verbs_in(written)
+                    params = []
+                required = [p for p in params if p.kind in (p.POSITIONAL_ONLY, p.POSITIONAL_OR_KEYWORD) and p.default is p.empty]
+                varargs = any(p.kind == p.VAR_POSITIONAL for p in params)
+                plain = [7 if (p.annotation is int or "size" in p.name) else "x" for p in required]
+                tuples = [tuple(plain)]
+                # a method that takes free-form arguments may take a command name: offer every
+                # script-management verb in several spellings, as str and bytes, in every string slot
+                spellings = []
+                for vb in sorted(wire.SCRIPT_VERBS):
+                    v = vb.decode()
+                    spellings += [v, v.lower(), v.capitalize(), vb, vb.lower(), v + " ", " " + v.lower()]
+                slots = [k for k, a in enumerate(plain) if a == "x"]
+                for k in slots[:2]:
+                    for sp in spellings:
+                        t = list(plain)
+                        t[k] = sp
+                        tuples.append(tuple(t))
+                        if varargs:
+                            tuples.append(tuple(t) + ("x",))
+                            tuples.append(tuple(t) + (b"x", 7))
+                if varargs and not slots:
+                    for sp in spellings:
+                        tuples.append(tuple(plain) + (sp,))
+                        tuples.append(tuple(plain) + (sp, "x"))
                 info["classes"].add("introspected:" + mname)
-                if verbs:
-                    fails.append(("script-command-written-before-authentication|%s|method=%s" % (verbs[0], mname),
-                                  {"method": mname, "args": args, "written": written}))
+                for args in tuples:
+                    n0 = len(c.sock.writes)
+                    try:
+                        with impl.cpu_guard():
+                            meth(*args)
+                    except BaseException as e:  # noqa: BLE001
+                        if isinstance(e, (KeyboardInterrupt, SystemExit)):
+                            raise
+                    written = b"".join(d for _, d in c.sock.writes[n0:])
+                    verbs = script_verbs_in(written)
+                    if verbs:
+                        fails.append(("script-command-written-before-authentication|%s|method=%s" % (verbs[0], mname),
+                                      {"method": mname, "args": [repr(a) for a in args], "written": written}))
+                        break
+                    if c.sock.closed or client2.sock is not c.sock:
+                        break
             client2.sock = None
     for c in conns:
         pass
